@@ -364,6 +364,11 @@ class _BufferedWrite:
 # --------------------------------------------------------------------------------------------------
 
 _MALFORMED_AGE = 2.0
+HANG_SECONDS = 20.0
+# non-terminal SLURM states outside JADE's five-entry table: the batch is still queued / allocated
+EXOTIC_PENDING = ["REQUEUED", "REQUEUE_HOLD", "RESV_DEL_HOLD", "REQUEUE_FED"]
+EXOTIC_RUNNING = ["SUSPENDED", "RESIZING", "STOPPED", "SIGNALING"]
+FROZEN_STATES = ("SUSPENDED", "STOPPED")
 
 
 class ModelSoftFileLock:
@@ -533,7 +538,7 @@ class World:
         faults=None,
         snapshots=False,
         observe_results=False,
-        max_steps=60000,
+        max_steps=8000,
         job_cmd_handler=None,
     ):
         self.root = os.path.realpath(root)
@@ -570,6 +575,12 @@ class World:
         self.snaps = []
         self.base_env = {}
         self.killed = []
+        self.hung = []
+        self._ignore_pauses = False
+        self.exotic_plan = []  # [{"at": step, "steps": duration, "which": n}] unusual scheduler states (see _exotic_tick)
+        self.fs_watch = set()  # basenames whose mutations are recorded as "fs" events
+        self.prio = None  # per-thread priorities (by creation ordinal) or None
+        self.pauses = []  # [{"thread": creation ordinal, "release": n-th cluster-lock release of it, "steps": D}]
         self.fault_hits = []
         self.hook_rc = {}
         self.observe_rows = False  # record the set of result rows on disk at every lock release
@@ -610,6 +621,18 @@ class World:
                     self.rowsets.append((len(self.log), names, vt.proc.name))
         if base == "cluster_config.json.lock":
             self.note("clock", op=what, by=vt.proc.name, dir=os.path.dirname(path))
+            if what == "release" and self.pauses:
+                vt.n_clock_rel = getattr(vt, "n_clock_rel", 0) + 1
+                try:
+                    ordinal = self.threads.index(vt)
+                except ValueError:
+                    ordinal = -1
+                for rule in self.pauses:
+                    if rule["thread"] == ordinal and rule["release"] == vt.n_clock_rel:
+                        # the process is held back right after leaving a critical section (a slow node / file system):
+                        # the window a check-then-act race across two critical sections needs
+                        vt.paused_until = self.steps + rule["steps"]
+                        self.note("pause", thread=vt.name, steps=rule["steps"])
             if what == "release" and self.snapshots:
                 self.snapshot(os.path.dirname(path), by=vt.proc.name)
 
@@ -727,6 +750,8 @@ class World:
         base = os.path.basename(path)
         if base == "submitter.lock":
             self.note("sublock", op=op, by=vt.proc.name, dir=os.path.dirname(path))
+        elif base in self.fs_watch:
+            self.note("fs", op=op, file=base, by=vt.proc.name, dir=os.path.dirname(path))
         if not self.file_yields:
             return
         if base.endswith(".log") or "/scratch/" in path:
@@ -850,11 +875,12 @@ class World:
                 continue
             if jid is not None and j != jid:
                 continue
+            shown = r.get("display") or r["state"]
             if with_name:
-                lines.append(f"{j:<20}{r['name']:<20}{r['state']:<20}")
+                lines.append(f"{j:<20}{r['name']:<20}{shown:<20}")
             else:
-                lines.append(f"{j:<20}{r['state']:<20}")
-        self.note("squeue", by=vt.proc.name, seen={j: r["state"] for j, r in self.slurm.items() if r["visible"]})
+                lines.append(f"{j:<20}{shown:<20}")
+        self.note("squeue", by=vt.proc.name, seen={j: (r.get("display") or r["state"]) for j, r in self.slurm.items() if r["visible"]})
         return SyncResult(0, "".join(x + "\n" for x in lines), "")
 
     def _scancel(self, argv, vt):
@@ -945,7 +971,8 @@ class World:
                 self.clock = vt.wake_time
             vt.wake_effects = self.effects
         vt.resume_ev.set()
-        self._main_wake.wait()
+        if not self._main_wake.wait(timeout=HANG_SECONDS):
+            self._unhang(vt)
         vt.env = dict(os.environ)
         if vt.state == "sleeping":
             # an *idle wake-up*: the process woke, changed nothing observable and went back to sleep (poll loop)
@@ -959,11 +986,34 @@ class World:
             self.note("proc_end", name=vt.name, kind=vt.root.kind, exit=vt.exit, exc=vt.exc, inv=vt.root.inv)
         self.last = vt
 
+    def _unhang(self, vt):
+        """The process did not reach a scheduling point for HANG_SECONDS of wall time (an endless loop without any
+        external interaction).  Raise Killed inside it so that the case can end; recorded as 'hung' (the case is then
+        inconclusive -- a wall-clock signal is never a verdict)."""
+        import ctypes
+
+        self.hung.append(vt.name)
+        self.inconclusive = True
+        vt.dead = True
+        for p in vt.procs:
+            p.alive = False
+        for _ in range(200):
+            ctypes.pythonapi.PyThreadState_SetAsyncExc(ctypes.c_ulong(vt.thread.ident), ctypes.py_object(Killed))
+            if self._main_wake.wait(timeout=0.5):
+                break
+        else:
+            raise HarnessError(f"virtual process {vt.name} hangs and cannot be interrupted")
+        self.note("hung", thread=vt.name)
+
     def _runnable(self, vt):
         if vt.state == "done":
             return None
         if vt.dead:
             return "ready"  # a killed process only unwinds (every primitive raises Killed)
+        if getattr(vt, "paused_until", 0) > self.steps and not self._ignore_pauses:
+            return None
+        if vt.batch is not None and self.slurm[vt.batch].get("display") in FROZEN_STATES:
+            return None  # the scheduler suspended the batch: its processes do not run
         if vt.state == "ready":
             return "ready"
         if vt.state == "blocked":
@@ -983,6 +1033,40 @@ class World:
         return None
 
     def enabled(self):
+        ev = self._enabled()
+        if not ev and any(r.get("display") for r in self.slurm.values()):
+            for r in self.slurm.values():
+                r["display_until"] = 0  # nothing else can happen: the unusual state ends
+            ev = self._enabled()
+        if not ev and any(getattr(vt, "paused_until", 0) > self.steps and vt.state != "done" for vt in self.threads):
+            for vt in self.threads:
+                vt.paused_until = 0  # nothing else can happen: the held-back processes continue
+            ev = self._enabled()
+        return ev
+
+    def _exotic_tick(self):
+        """Unusual scheduler states are part of the case: at generated step numbers a queued/running batch is shown in
+        a non-terminal state outside JADE's table for a generated number of steps."""
+        for jid, r in self.slurm.items():
+            if r.get("display") and self.steps >= r.get("display_until", 0):
+                self.note("exotic_end", id=jid, state=r["display"])
+                r["display"] = None
+        while self.exotic_plan and self.steps >= self.exotic_plan[0]["at"]:
+            plan = self.exotic_plan.pop(0)
+            active = [jid for jid, r in self.slurm.items() if r["state"] in ("PENDING", "RUNNING") and not r.get("display")
+                      and not (r["vt"] is not None and r["vt"].state == "done")]
+            if not active:
+                continue
+            jid = active[plan["which"] % len(active)]
+            r = self.slurm[jid]
+            names = EXOTIC_PENDING if r["state"] == "PENDING" else EXOTIC_RUNNING
+            r["display"] = names[plan["which"] % len(names)]
+            r["display_until"] = self.steps + plan["steps"]
+            self.note("exotic", id=jid, state=r["display"], real=r["state"], steps=plan["steps"])
+
+    def _enabled(self):
+        if self.exotic_plan or any(r.get("display") for r in self.slurm.values()):
+            self._exotic_tick()
         ready, sleeping = [], []
         for vt in self.threads:
             r = self._runnable(vt)
@@ -990,13 +1074,22 @@ class World:
                 ready.append(("run", vt))
             elif r == "sleeping":
                 sleeping.append(("run", vt))
-        ev = [e for e in ready if e[1] is self.last]
-        ev += [e for e in ready if e[1] is not self.last]
+        if self.prio:
+            # priority mode (PCT-style): the default choice is the ready process with the highest generated priority
+            order = {id(vt): i for i, vt in enumerate(self.threads)}
+            ready.sort(key=lambda e: (-self.prio[order[id(e[1])] % len(self.prio)], order[id(e[1])]))
+            sleeping.sort(key=lambda e: (-self.prio[order[id(e[1])] % len(self.prio)], order[id(e[1])]))
+            ev = list(ready)
+        else:
+            ev = [e for e in ready if e[1] is self.last]
+            ev += [e for e in ready if e[1] is not self.last]
         for jid, r in self.slurm.items():
             if r["state"] == "PENDING":
                 ev.append(("start", jid))
         for j in self.jobs:
             if j.returncode is None and not j.died and j.vt.state != "done" and not j.vt.dead:
+                if j.batch is not None and self.slurm[j.batch].get("display") in FROZEN_STATES:
+                    continue
                 ev.append(("finish", j))
         for jid, r in self.slurm.items():
             if r["state"] == "RUNNING" and r["vt"] is not None and r["vt"].state == "done":
@@ -1073,6 +1166,7 @@ class World:
     def start_batch(self, jid):
         rec = self.slurm[jid]
         rec["state"] = "RUNNING"
+        rec["display"] = None
         rec["start_ord"] = sum(1 for r in self.slurm.values() if r["start_ord"] is not None)
         argv = shlex.split(rec["cmdline"])
         exe, args = os.path.basename(argv[0]), argv[1:]
